@@ -2,7 +2,7 @@
 import random
 
 from ..collect import Collector
-from ..canon import chash, canon, to_plain
+from ..canon import chash, canon, to_plain, first_difference
 from .. import gen_json as G
 
 ID = "C02"
@@ -46,6 +46,20 @@ def judge(col, a, b, space, enumerated):
         col.count("exception")
         return
     col.mon("roundtrip")
+    if not enumerated or col.evaluations % 8 == 0:
+        # the diff TRANSPORTED as JSON text and revived the way nbpatch and the web server's clients do it: every string
+        # in it (op names, keys) is then an equal but different object
+        from nbdime.diff_utils import to_diffentry_dicts
+        import json as _json
+        try:
+            d2 = to_diffentry_dicts(_json.loads(_json.dumps(to_plain(d))))
+            p2 = nbd.patch(a, d2)
+            col.count("patches_with_json_transported_diff")
+            if canon(p2) != canon(b):
+                col.violation("json-transported-diff-patches-differently", first_difference(p2, b), {"a": a, "b": b, "space": space, "diff": to_plain(d)}, "nbdime-patch")
+        except Exception as e:
+            key, tmpl = nbd.exc_key(e)
+            col.violation("json-transported-diff-raised:" + key, str(e)[:200], {"a": a, "b": b, "space": space, "diff": to_plain(d)}, "nbdime-patch")
     fs = roundtrip_findings(a, b, d, p, want_empty_iff_identical=False)
     for mech, clause, detail in fs:
         col.violation(mech, detail, {"a": a, "b": b, "space": space, "diff": to_plain(d)}, clause)
